@@ -63,6 +63,20 @@ M = [
  ("update_key_skips_blank", "crates/liwe/src/graph.rs",
   "        self.from_markdown(key, content, MarkdownReader::new());\n\n        self", "        if !content.is_empty() {\n            self.from_markdown(key, content, MarkdownReader::new());\n        }\n\n        self", {"C20": 1, "C04": 1}),
  # benign refactorings: must not alarm
+ ("benign_process_section_local", "crates/liwe/src/graph/sections_builder.rs",
+  "        self.section_block(&blocks[range.start]);\n", "        let first = &blocks[range.start];\n        self.section_block(first);\n", {"C07": 0, "C20": 0}),
+ ("benign_from_markdown_reorder", "crates/liwe/src/graph.rs",
+  "        self.nodes_map.insert(key.clone(), nodes_map.clone());\n        self.global_nodes_map.extend(nodes_map);\n\n        let mut index = RefIndex::new();\n        index.index_node(self, id);\n        self.index.merge(index);\n\n        self.extract_ref_text(&key)\n            .map(|text| self.keys_to_ref_text.insert(key, text));\n    }\n\n    pub fn to_markdown",
+  "        self.global_nodes_map.extend(nodes_map.clone());\n        self.nodes_map.insert(key.clone(), nodes_map);\n\n        let mut index = RefIndex::new();\n        index.index_node(self, id);\n        self.index.merge(index);\n\n        self.extract_ref_text(&key)\n            .map(|text| self.keys_to_ref_text.insert(key, text));\n    }\n\n    pub fn to_markdown", {"C01": 0, "C04": 0}),
+ ("benign_index_if_let", "crates/liwe/src/graph/index.rs",
+  "                leaf.next_id().map(|child_id| {\n                    self.index_node(graph, child_id);\n                });", "                if let Some(child_id) = leaf.next_id() {\n                    self.index_node(graph, child_id);\n                }", {"C05": 0}),
+ ("benign_projector_level_local", "crates/liwe/src/model/projector.rs",
+  "                blocks.push(GraphBlock::Header(\n                    self.header_level as u8 + 1,\n                    iter.inlines(),\n                ));", "                let level = self.header_level as u8 + 1;\n                blocks.push(GraphBlock::Header(level, iter.inlines()));", {"C07": 0}),
+ ("benign_update_key_if_let", "crates/liwe/src/graph.rs",
+  "        let id = self.keys.get(&key);\n        if id.is_some() {\n            self.arena.delete_branch(*id.unwrap());\n        }", "        if let Some(id) = self.keys.get(&key) {\n            self.arena.delete_branch(*id);\n        }", {"C04": 0}),
+ ("benign_builder_match_for_if", "crates/liwe/src/graph/builder.rs",
+  "    pub fn link_node_id(&mut self, node_id: NodeId) {\n        if self.insert {\n            self.graph.node_mut(self.id).set_child_id(node_id);\n            self.insert = false;\n        } else {\n            self.graph.node_mut(self.id).set_next_id(node_id);\n        }",
+  "    pub fn link_node_id(&mut self, node_id: NodeId) {\n        match self.insert {\n            true => {\n                self.graph.node_mut(self.id).set_child_id(node_id);\n                self.insert = false;\n            }\n            false => self.graph.node_mut(self.id).set_next_id(node_id),\n        }", {"C20": 0}),
  ("benign_rename_local", "crates/liwe/src/graph/sections_builder.rs",
   "let mut ranges: Vec<Range> = vec![];", "let mut ranges: Vec<Range> = Vec::new();", {"C07": 0}),
  ("benign_if_let_for_map", "crates/liwe/src/graph/arena.rs",
